@@ -60,6 +60,14 @@ def special_template_order(rng):
         g = '<radialGradient id="g" xlink:href="#t" cx="%d" cy="%d" gradientUnits="userSpaceOnUse"/>' % (rng.randint(10, 25), rng.randint(10, 25))
         t = '<radialGradient id="t" cx="5" cy="5" r="%d" gradientUnits="userSpaceOnUse" gradientTransform="%s">%s</radialGradient>' % (rng.randint(12, 25), tr, stops)
     defs = [g, t] if rng.random() < 0.7 else [t, g]
+    if rng.random() < 0.4:
+        # used -> middle (own stops, geometry from far) -> far, in any document order
+        far = ('<linearGradient id="far" x1="5" x2="45" gradientUnits="userSpaceOnUse" gradientTransform="%s" spreadMethod="%s"/>'
+               % (tr, rng.choice(["reflect", "repeat", "pad"])))
+        mid = '<linearGradient id="t" xlink:href="#far">%s</linearGradient>' % stops
+        g = '<linearGradient id="g" xlink:href="#t"/>'
+        defs = [g, mid, far]
+        rng.shuffle(defs)
     shape = '<rect x="2" y="3" width="60" height="40" fill="url(#g)"%s/>' % rng.choice(["", "", ' transform="translate(10 5)"'])
     return ('<svg xmlns="http://www.w3.org/2000/svg" xmlns:xlink="http://www.w3.org/1999/xlink" viewBox="0 0 100 80"><defs>%s</defs>%s</svg>'
             % ("".join(defs), shape))
